@@ -44,17 +44,18 @@ def key (s : TScanner) : Bytes := s.kind ++ [0] ++ s.name
 def entry (s : TScanner) : Bytes := s.name ++ [0] ++ s.version ++ [0] ++ s.kind ++ [10]
 
 /-- `m[k]` after the loop: the entry of the last scanner with that key. -/
-def lookupLast (kf : TScanner → Bytes) (ef : TScanner → Bytes) (k : Bytes) : List TScanner → Bytes
-  | [] => []
+def lookupLast (kf : TScanner → Bytes) (ef : TScanner → Bytes) (k : Bytes) : List TScanner → Option Bytes
+  | [] => none
   | s :: rest =>
     match lookupLast kf ef k rest with
-    | [] => if kf s = k then ef s else []
-    | e => e
+    | some e => some e
+    | none => if kf s = k then some (ef s) else none
 
-def magic : Bytes := "libindex number: 2\n".toUTF8.toList.map (·.toNat)
+/-- `versionMagic` = "libindex number: 2\n". -/
+def magic : Bytes := [108, 105, 98, 105, 110, 100, 101, 120, 32, 110, 117, 109, 98, 101, 114, 58, 32, 50, 10]
 
 def preimageWith (kf ef : TScanner → Bytes) (vs : List TScanner) : Bytes :=
-  magic ++ (sortKeys (vs.map kf)).flatMap fun k => lookupLast kf ef k vs
+  magic ++ (sortKeys (vs.map kf)).flatMap fun k => (lookupLast kf ef k vs).getD []
 
 /-- The hashed byte string of the current code. -/
 def preimage (vs : List TScanner) : Bytes := preimageWith key entry vs
